@@ -457,11 +457,15 @@ func (eval Evaluator) ScaleUpNew(op0 *rlwe.Ciphertext, scale rlwe.Scale) (opOut 
 // ScaleUp multiplies op0 by scale and sets its scale to its previous scale times scale returns the result in opOut.
 func (eval Evaluator) ScaleUp(op0 *rlwe.Ciphertext, scale rlwe.Scale, opOut *rlwe.Ciphertext) (err error) {
 
-	if err = eval.Mul(op0, scale.Uint64(), opOut); err != nil {
+	// The ciphertext can only be multiplied by an integer: the integer part of scale,
+	// which is also the factor by which the scale of the result grows.
+	factor, _ := scale.Value.Int(nil)
+
+	if err = eval.Mul(op0, factor, opOut); err != nil {
 		return fmt.Errorf("cannot ScaleUp: %w", err)
 	}
 
-	opOut.Scale = op0.Scale.Mul(scale)
+	opOut.Scale = op0.Scale.Mul(rlwe.NewScale(factor))
 
 	return
 }
